@@ -356,6 +356,15 @@ def directed():
         (M, [["set", "ml", [12, 5]], ["flow", flow_t(path=[1, 4, 5])], rh, rq]),
         (M, [["set", "ml", [12]], ["flow", flow_t(path=[1])], rh, rq]),                                        # group needs a rest
         (M, [["set", "ml", [5, 6]], ["flow", flow_t(path=[1, 4])], rh, rq]),                                   # first rule finds nothing
+        # one history per remaining required witness, so that no witness depends on what the seed samples
+        (H, [["set", "mh", [1, 2]], ["flow", flow_t(qh=[(1, 5), (2, 4)])], rh]),                               # hdr_multi, hdr_readings_differ
+        (H, [["set", "mh", [5]], ["flow", post], rh, rq, ["respond", WH_RESPS[0]], sh]),                       # hdr_file
+        (B, [["set", "mb", [1, 4]], ["flow", flow_t(meth=2, qb=[1, 3])], rh, rq]),                             # body_readings_differ
+        (M, [["set", "mr", [1, 2, 3]], ["flow", flow_t(host=3, path=[5])], rh, rq]),                           # url_nomatch
+        (M, [["set", "mr", [1, 2, 3]], ["set", "ml", [4]], ["flow", flow_t(path=[1, 2])], rh, rq]),            # ml_sees_mapped_url
+        (B, [["set", "mb", [1, 5]], ["file", 1, False, [5, 1]], ["flow", flow_t(qb=[1])], rh, rq,
+             ["respond", resp_t(sb=[4, 1])], sh, rs, ["set", "mb", [5]]]),                                     # unreadable_file, set_missing_file
+        (H, [["set", "mh", [3, 9, 1]]]),                                                                       # set_invalid_empty
     ]
     r = random.Random(7)
     for w, ops in out:
